@@ -1,3 +1,15 @@
 //! Safe-Rust verification hooks for this module (accessors/wrappers only; no logic).
 #![allow(missing_docs, unused_imports, dead_code)]
 use super::*;
+
+// ---- statime_h (C45): the private per-datagram handler
+pub async fn handle_packet_hook<S: ServerSocket>(
+    socket: &mut S,
+    manager: &CsptpManager<impl StateMutex>,
+    packet: &[u8],
+    remote: S::Addr,
+    local: S::Addr,
+    timestamp: Timestamp,
+) {
+    handle_packet(socket, manager, packet, remote, local, timestamp).await
+}
